@@ -196,3 +196,221 @@ Example norm_det_ex :
   cube 2 [:: [:: [:: 1; 0]; [:: 0; 1]]; [:: [:: 0; 1]; [:: -5; 0]]]%Z /\
   mt_norm [:: [:: [:: 1; 0]; [:: 0; 1]]; [:: [:: 0; 1]; [:: -5; 0]]]%Z [:: 1; 1]%Z = Done 6%Z.
 Proof. by split; vm_compute. Qed.
+
+(** ** tables that come from orders are commutative and associative (second wave)
+
+    [b] is an n x n rational matrix (rows = basis vectors in the power basis of theta), [f] the
+    minimal polynomial of degree n (any n, also 0), [t] the table [get_mult_table] returned.  Then
+    [mul] of [t] is commutative and associative on all integer vectors of length n, and the boolean
+    flags that the C16 theorems take as hypotheses ([Ideal.table_shape], [Ideal.table_comm],
+    [IdealLaws.table_assoc]) evaluate to [true].  Proof: [table_mul_agrees], the ring laws of
+    Q[x]/(f), and injectivity of coordinates (the basis matrix is invertible because the
+    [solve_linear_system] calls of [get_mult_table] returned [Ok]). *)
+From RNT.Model Require Ideal.
+From RNT.Refine Require IdealLaws.
+From RNT.Refine Require Import AlgNormMx AlgNormOrder AlgNormFlags AlgNormInv.
+
+(** [P] table_of_order_comm *)
+Theorem table_of_order_comm (f : seq Z) (n : nat) :
+  canonZ f -> size f = n.+1 -> forall b : seq (seq Qc), size b = n -> (forall i, (i < n)%N -> size (nth [::] b i) = n) ->
+  forall t, get_mult_table b f = Done t ->
+  forall (m : mode) (x y : seq Z), size x = n -> size y = n ->
+  exists2 z, mt_mul m t x y = Done z & mt_mul m t y x = Done z.
+Proof. exact (@AlgNormOrder.order_table_comm f n). Qed.
+
+(** [P] table_of_order_assoc *)
+Theorem table_of_order_assoc (f : seq Z) (n : nat) :
+  canonZ f -> size f = n.+1 -> forall b : seq (seq Qc), size b = n -> (forall i, (i < n)%N -> size (nth [::] b i) = n) ->
+  forall t, get_mult_table b f = Done t ->
+  forall (m : mode) (x y z : seq Z), size x = n -> size y = n -> size z = n ->
+  exists xy yz r, [/\ mt_mul m t x y = Done xy, mt_mul m t xy z = Done r,
+                      mt_mul m t y z = Done yz & mt_mul m t x yz = Done r].
+Proof. exact (@AlgNormOrder.order_table_assoc f n). Qed.
+
+(** [P] table_of_order_comm_assoc: the table hypotheses of the C16 laws hold for tables of orders *)
+Theorem table_of_order_comm_assoc (f : seq Z) (n : nat) :
+  canonZ f -> size f = n.+1 -> forall b : seq (seq Qc), size b = n -> (forall i, (i < n)%N -> size (nth [::] b i) = n) ->
+  forall t, get_mult_table b f = Done t ->
+  [/\ Ideal.table_shape t = true, Ideal.table_comm t = true & IdealLaws.table_assoc t = true].
+Proof. exact (@AlgNormOrder.order_table_flags f n). Qed.
+
+(** non-vacuity: Z[i], the maximal order Z[(1+sqrt 5)/2] of Q(sqrt 5) in a basis that is not a power
+    basis, and the equation order of x^3 + x + 1 (tables computed by the model) *)
+Example table_of_order_ex_Zi :
+  let f := [:: 1; 0; 1]%Z in let b := [:: [:: qz 1; qz 0]; [:: qz 0; qz 1]] in
+  let t := [:: [:: [:: 1; 0]; [:: 0; 1]]; [:: [:: 0; 1]; [:: -1; 0]]]%Z in
+  [/\ canonZ f, get_mult_table b f = Done t,
+      [/\ Ideal.table_shape t = true, Ideal.table_comm t = true & IdealLaws.table_assoc t = true]
+    & mt_mul Checked t [:: 1; 1]%Z [:: 2; 1]%Z = Done [:: 1; 3]%Z].
+Proof. by split; vm_compute. Qed.
+
+Example table_of_order_ex_golden :
+  let f := [:: -5; 0; 1]%Z in
+  let b := [:: [:: qz 1; qz 0]; [:: Qcdiv (qz 1) (qz 2); Qcdiv (qz 1) (qz 2)]] in
+  let t := [:: [:: [:: 1; 0]; [:: 0; 1]]; [:: [:: 0; 1]; [:: 1; 1]]]%Z in
+  [/\ canonZ f, get_mult_table b f = Done t,
+      [/\ Ideal.table_shape t = true, Ideal.table_comm t = true & IdealLaws.table_assoc t = true]
+    & mt_mul Checked t [:: 1; 2]%Z [:: 3; -1]%Z = Done [:: 1; 3]%Z].
+Proof. by split; vm_compute. Qed.
+
+Definition t_cubic : table :=
+  [:: [:: [:: 1; 0; 0]; [:: 0; 1; 0]; [:: 0; 0; 1]]; [:: [:: 0; 1; 0]; [:: 0; 0; 1]; [:: -1; -1; 0]];
+      [:: [:: 0; 0; 1]; [:: -1; -1; 0]; [:: 0; -1; -1]]]%Z.
+
+Example table_of_order_ex_cubic :
+  let f := [:: 1; 1; 0; 1]%Z in
+  [/\ canonZ f, (do b <- singly_gen f (alg_new f); get_mult_table b f) = Done t_cubic
+    & [/\ Ideal.table_shape t_cubic = true, Ideal.table_comm t_cubic = true
+        & IdealLaws.table_assoc t_cubic = true]].
+Proof. by split; vm_compute. Qed.
+
+(** ** the norm is multiplicative; the trace is a matrix trace
+
+    [P] norm_multiplicative: on an n x n x n table whose [mul] is associative (hypothesis: the boolean
+    [IdealLaws.table_assoc], which holds for every table of an order by [table_of_order_comm_assoc]),
+    [norm (a * b) = norm a * norm b].  Proof: [v |-> v *m M_a] is [v |-> a * v] for the integer matrix
+    [M_a = sum_i a_i T_i] of [norm_det]; associativity gives [M_(a*b) = M_b *m M_a]; [det_mulmx]. *)
+Theorem norm_multiplicative (m : mode) (n : nat) (t : table) (a b : seq Z) :
+  cube n t -> IdealLaws.table_assoc t = true -> size a = n -> size b = n ->
+  exists ab na nb, [/\ mt_mul m t a b = Done ab, mt_norm t a = Done na, mt_norm t b = Done nb
+                     & mt_norm t ab = Done (na * nb)].
+Proof. exact (@AlgNormFlags.flag_norm_mul m n t a b). Qed.
+
+(** [P] the same for the table of an order, without a flag *)
+Theorem norm_multiplicative_order (f : seq Z) (n : nat) :
+  canonZ f -> size f = n.+1 -> forall b : seq (seq Qc), size b = n -> (forall i, (i < n)%N -> size (nth [::] b i) = n) ->
+  forall t, get_mult_table b f = Done t ->
+  forall (m : mode) (x y : seq Z), size x = n -> size y = n ->
+  exists xy nx ny, [/\ mt_mul m t x y = Done xy, mt_norm t x = Done nx, mt_norm t y = Done ny
+                     & mt_norm t xy = Done (nx * ny)].
+Proof. exact (@AlgNormOrder.order_norm_mul f n). Qed.
+
+(** [P] the representation matrices themselves: [M_(a*b) = M_b *m M_a] *)
+Theorem rep_matrix_mul (m : mode) (n : nat) (t : table) (a b ab : seq Z) :
+  cube n t -> IdealLaws.table_assoc t = true -> size a = n -> size b = n -> mt_mul m t a b = Done ab ->
+  (\matrix_(j < n, k < n) \sum_(i <- iota 0 n) nth 0 ab i * T3 t i j k)
+  = (\matrix_(j < n, k < n) \sum_(i <- iota 0 n) nth 0 b i * T3 t i j k)
+    *m (\matrix_(j < n, k < n) \sum_(i <- iota 0 n) nth 0 a i * T3 t i j k) :> 'M[Z]_n.
+Proof. exact (@AlgNormFlags.flag_rep_mul m n t a b ab). Qed.
+
+Example norm_multiplicative_ex :
+  [/\ cube 3 t_cubic /\ IdealLaws.table_assoc t_cubic = true,
+      mt_mul Checked t_cubic [:: 1; 2; 3]%Z [:: 2; 1; 0]%Z = Done [:: -1; 2; 8]%Z,
+      mt_norm t_cubic [:: 1; 2; 3]%Z = Done 27%Z, mt_norm t_cubic [:: 2; 1; 0]%Z = Done 9%Z
+    & mt_norm t_cubic [:: -1; 2; 8]%Z = Done 243%Z].
+Proof. by split; vm_compute. Qed.
+
+(** [P] trace_is_matrix_trace: [trace a] is the trace of the matrix of [x |-> x * a]
+    (row j = coordinates of w_j * a); on a commutative table (boolean [Ideal.table_comm]; every table
+    of an order) this is the matrix [M_a] of [norm_det], so [trace a = tr M_a], [norm a = det M_a] *)
+Theorem trace_is_matrix_trace (n : nat) (t : table) (a : seq Z) : cube n t -> size a = n ->
+  mt_trace t a = Done (\tr (\matrix_(j < n, k < n) \sum_(i <- iota 0 n) nth 0 a i * T3 t j i k)).
+Proof. exact (@AlgNormMx.mt_trace_Rrep n t a). Qed.
+
+Theorem trace_is_rep_trace (n : nat) (t : table) (a : seq Z) :
+  cube n t -> Ideal.table_comm t = true -> size a = n ->
+  mt_trace t a = Done (\tr (\matrix_(j < n, k < n) \sum_(i <- iota 0 n) nth 0 a i * T3 t i j k)).
+Proof. exact (@AlgNormFlags.flag_trace n t a). Qed.
+
+Theorem trace_is_rep_trace_order (f : seq Z) (n : nat) :
+  canonZ f -> size f = n.+1 -> forall b : seq (seq Qc), size b = n -> (forall i, (i < n)%N -> size (nth [::] b i) = n) ->
+  forall t, get_mult_table b f = Done t -> forall x : seq Z, size x = n ->
+  mt_trace t x = Done (\tr (\matrix_(j < n, k < n) \sum_(i <- iota 0 n) nth 0 x i * T3 t i j k)).
+Proof. exact (@AlgNormOrder.order_trace f n). Qed.
+
+Example trace_ex : cube 3 t_cubic /\ Ideal.table_comm t_cubic = true /\
+  mt_trace t_cubic [:: 1; 2; 3]%Z = Done (-3)%Z.
+Proof. by split; [|split]; vm_compute. Qed.
+
+(** ** inverse
+
+    [P] inv_spec: on an n x n x n table (nothing else assumed), with [nm] the value of [norm a]:
+    if [nm = 0], [inv a] panics ([unwrap] of [Err(MatrixNotInvertible)]); if [nm <> 0], [inv a]
+    returns [(b, |nm|)] with [a * b = |nm| * e_0] ([Ideal.scalar_vec n d = (d, 0, ..., 0)]).  The
+    rational vector [|nm| * (row 0 of M_a^-1)] the code truncates with [to_integer] is integral
+    (it is [sgn nm * row 0 of adj M_a]), so nothing is lost.  When [w_0 = 1], [b / |nm|] is the
+    inverse of [a]: see [inv_cancel]. *)
+Theorem inv_spec (m : mode) (n : nat) (t : table) (a : seq Z) : cube n t -> size a = n ->
+  exists nm, [/\ mt_norm t a = Done nm, nm = 0 -> mt_inv t a = Panic PUnwrap
+    & nm <> 0 -> exists b, [/\ mt_inv t a = Done (b, Z.abs nm), size b = n
+                     & mt_mul m t a b = Done (Ideal.scalar_vec n (Z.abs nm))]].
+Proof. exact (@AlgNormInv.mt_inv_spec2 m n t a). Qed.
+
+(** [P] inv_cancel: if moreover [mul] is associative and [e_0] is a right identity, then for [(b, d)]
+    returned by [inv a]: [(c * a) * b = d * c] for every [c] *)
+Theorem inv_cancel (m : mode) (n : nat) (t : table) (a b : seq Z) (d : Z) :
+  cube n t -> IdealLaws.table_assoc t = true ->
+  (forall v, size v = n -> mt_mul m t v (Ideal.unit_vec n 0) = Done v) ->
+  size a = n -> mt_inv t a = Done (b, d) ->
+  forall c, size c = n ->
+  exists2 ca, mt_mul m t c a = Done ca & mt_mul m t ca b = Done (vscale d c).
+Proof. exact (@AlgNormFlags.flag_inv_cancel m n t a b d). Qed.
+
+Example inv_spec_ex :
+  [/\ cube 3 t_cubic, mt_norm t_cubic [:: 1; 2; 3]%Z = Done 27%Z,
+      mt_inv t_cubic [:: 1; 2; 3]%Z = Done ([:: 14; -11; 10]%Z, 27%Z),
+      mt_mul Checked t_cubic [:: 1; 2; 3]%Z [:: 14; -11; 10]%Z = Done (Ideal.scalar_vec 3 27)
+    & mt_norm t_cubic [:: 1; 1; 1]%Z = Done 3%Z /\ mt_inv t_cubic [:: 0; 0; 0]%Z = Panic PUnwrap].
+Proof. by split; vm_compute. Qed.
+
+(** ** norm and resultant
+
+    [resultant p q] is MathComp's determinant of the Sylvester matrix ([mxpoly]); in the orientation
+    of the property text (ResSylvester.v) the classical Res(f, g) is [resultant g f].
+
+    [P] norm_resultant: for every f of degree n >= 1 (any leading coefficient, reducible or not),
+    every basis [b] and the table [t] that [get_mult_table] returned: with [g = of_coords n b a] the
+    polynomial such that the element with coordinates [a] is [g(theta)],
+    [norm a = Res(f, g) / lc(f)^(deg g)] (for [g = 0], [(size g).-1 = 0] and [resultant 0 f = 0]).
+    Proof: reduce the rows [g * X^j] of the Sylvester matrix modulo the rows of [f]; the remaining
+    block is the matrix of multiplication by [g] in the power basis, which is conjugate (by the
+    invertible basis matrix) to the integer matrix [M_a] of [norm_det]. *)
+From mathcomp Require Import mxpoly.
+From RNT.Refine Require Import AlgNormRes.
+
+Theorem norm_resultant (f : seq Z) (n : nat) :
+  canonZ f -> size f = n.+1 -> (0 < n)%N ->
+  forall b : seq (seq Qc), size b = n -> (forall i, (i < n)%N -> size (nth [::] b i) = n) ->
+  forall t, get_mult_table b f = Done t ->
+  forall a : seq Z, size a = n ->
+  let g := of_coords n b (map qz a) in
+  exists2 nm, mt_norm t a = Done nm
+            & qz nm = resultant g (Fq f) / lead_coef (Fq f) ^+ (size g).-1.
+Proof. exact (@AlgNormRes.norm_resultant_gen f n). Qed.
+
+(** [P] norm_resultant_monic: for monic f and the power basis (row i of [b] is theta^i: the basis of
+    [trivial_order_monic], [identity_power_basis]) the same over Z: [norm a = Res(f, a(x))] *)
+Theorem norm_resultant_monic (f : seq Z) (n : nat) :
+  canonZ f -> size f = n.+1 -> nth 0%Z f n = 1%Z ->
+  forall b : seq (seq Qc), size b = n -> (forall i, (i < n)%N -> size (nth [::] b i) = n) ->
+  (forall i, (i < n)%N -> Poly (nth [::] b i) = 'X^i :> {poly Qc}) ->
+  forall t, get_mult_table b f = Done t ->
+  forall a : seq Z, size a = n -> Poly a != 0 :> {poly Z} ->
+  mt_norm t a = Done (resultant (Poly a) (Poly f)).
+Proof. exact (@AlgNormRes.norm_resultant_Z f n). Qed.
+
+Theorem identity_power_basis (n : nat) :
+  [/\ size (LinAlg.identity LinAlg.fopsQc n) = n,
+      forall i, (i < n)%N -> size (nth [::] (LinAlg.identity LinAlg.fopsQc n) i) = n
+    & forall i, (i < n)%N -> Poly (nth [::] (LinAlg.identity LinAlg.fopsQc n) i) = 'X^i :> {poly Qc}].
+Proof. exact (@AlgNormRes.identity_power_basis n). Qed.
+
+(** non-vacuity: the equation order of x^3 + x + 1 (power basis = what [trivial_order_monic] returns),
+    and the starting order {1, 2 theta, 2 theta^2} of the non-monic 2x^3 + x + 1 *)
+Example norm_resultant_ex_monic :
+  let f := [:: 1; 1; 0; 1]%Z in
+  [/\ canonZ f, nth 0%Z f 3 = 1%Z,
+      Base.omap (List.map (List.map this)) (trivial_order_monic f)
+      = Done (List.map (List.map this) (LinAlg.identity LinAlg.fopsQc 3)),
+      get_mult_table (LinAlg.identity LinAlg.fopsQc 3) f = Done t_cubic
+    & mt_norm t_cubic [:: 1; 2; 3]%Z = Done 27%Z].
+Proof. by split; vm_compute. Qed.
+
+Example norm_resultant_ex_nonmonic :
+  let f := [:: 1; 1; 0; 2]%Z in
+  let b := [:: [:: qz 1; qz 0; qz 0]; [:: qz 0; qz 2; qz 0]; [:: qz 0; qz 0; qz 2]] in
+  let t := [:: [:: [:: 1; 0; 0]; [:: 0; 1; 0]; [:: 0; 0; 1]]; [:: [:: 0; 1; 0]; [:: 0; 0; 2]; [:: -2; -1; 0]];
+               [:: [:: 0; 0; 1]; [:: -2; -1; 0]; [:: 0; -1; -1]]]%Z in
+  [/\ canonZ f, Base.omap (List.map (List.map this)) (non_monic_initial_order f) = Done (List.map (List.map this) b),
+      get_mult_table b f = Done t & mt_norm t [:: 1; 2; 3]%Z = Done 34%Z].
+Proof. by split; vm_compute. Qed.
